@@ -245,9 +245,10 @@ def run_gd(case, drv):
                 return skip("singular covariance")
             K = [[float(Fraction(x)) for x in row] for row in inv["inv"]]
             h = [sum(K[i][j] * mean[j] for j in range(n)) for i in range(n)]
-            if np.abs(np.asarray(cf.K) - np.asarray(K)).max() > 1e-6 * max(1, np.abs(K).max()):
+            kc = float(np.linalg.cond(np.asarray(cov, dtype=float)))
+            if np.abs(np.asarray(cf.K) - np.asarray(K)).max() > (1e-6 + 1e-14 * kc) * max(1, np.abs(K).max()):
                 return fail("to_canonical_factor: K is not the inverse covariance", **tags)
-            if np.abs(np.asarray(cf.h).reshape(-1) - np.asarray(h)).max() > 1e-6 * max(1, np.abs(h).max()):
+            if np.abs(np.asarray(cf.h).reshape(-1) - np.asarray(h)).max() > (1e-6 + 1e-14 * kc) * max(1, np.abs(h).max()):
                 return fail("to_canonical_factor: h is not K mu", **tags)
             back = cf.to_joint_gaussian()
             res, exp_mean, exp_cov, keep = back, mean, cov, list(range(n))
@@ -273,9 +274,23 @@ def run_gd(case, drv):
         return fail(f"{op}: variables {res.variables}", **tags)
     rm = np.asarray(res.mean).reshape(-1)
     rc = np.asarray(res.covariance)
-    if np.abs(rm - np.asarray(exp_mean)).max() > 1e-6 * max(1, np.abs(exp_mean).max()):
+    # float64 inversion of the conditioned / whole covariance: relative error ~ cond * 2^-53 (x10 safety), as for predict
+    fl_m = fl_c = 0.0
+    Cf = np.asarray(cov, dtype=float)
+    if op == "reduce":
+        S = Cf[np.ix_(sub, sub)]
+        kappa = float(np.linalg.cond(S))
+        AS = Cf[np.ix_(keep, sub)] @ np.linalg.pinv(S)
+        dvec = np.array([float(Fraction(x)) for x in case["vals"]]) - np.asarray(mean)[sub]
+        fl_c = 1e-15 * kappa * (np.abs(AS @ Cf[np.ix_(sub, keep)]).max() + np.abs(Cf[np.ix_(keep, keep)]).max())
+        fl_m = 1e-15 * kappa * float((np.abs(AS) @ np.abs(dvec)).max())
+    elif op == "canonical":
+        kappa = float(np.linalg.cond(Cf))
+        fl_c = 1e-15 * kappa * np.abs(Cf).max()
+        fl_m = 1e-15 * kappa * np.abs(np.asarray(mean)).max()
+    if np.abs(rm - np.asarray(exp_mean)).max() > 1e-6 * max(1, np.abs(exp_mean).max()) + fl_m:
         return fail(f"{op}: mean {rm} vs {exp_mean}", **tags)
-    if np.abs(rc - np.asarray(exp_cov)).max() > 1e-6 * max(1, np.abs(exp_cov).max()):
+    if np.abs(rc - np.asarray(exp_cov)).max() > 1e-6 * max(1, np.abs(exp_cov).max()) + fl_c:
         return fail(f"{op}: covariance {rc.tolist()} vs {exp_cov}", **tags)
     if op in ("marginalize", "reduce"):
         # derived quantities of the result must describe the same density: precision = covariance^-1, K = precision, h = K mu
@@ -283,7 +298,8 @@ def run_gd(case, drv):
         if inv is not None and inv["ok"]:
             Kx = np.array([[float(Fraction(x)) for x in row] for row in inv["inv"]])
             cond = float(np.linalg.cond(np.asarray(exp_cov, dtype=float)))
-            tolK = 1e-6 * max(1, np.abs(Kx).max()) + 1e-13 * cond * np.abs(Kx).max()
+            # plus the error the result's covariance inherited from the operation itself: dK ~ K dSigma K
+            tolK = 1e-6 * max(1, np.abs(Kx).max()) + 1e-13 * cond * np.abs(Kx).max() + len(Kx) * np.abs(Kx).max() ** 2 * fl_c
             try:
                 pm = np.asarray(res.precision_matrix, dtype=float)
                 cf = res.to_canonical_factor()
